@@ -92,10 +92,11 @@ def one(ctx, pts, kind, queries, family):
         if not (float(val) == float(want) or (math.isnan(float(val)) and math.isnan(float(want)))):
             ctx.fail('predicate', 'cache-entry-equals-fresh-segment-cost', site, case, dict(key=[a, b], cached=float(val), fresh=float(want)))
             break
-    # all points are breakpoints
-    allv = float(ev.compute_global_cost(pts, list(range(n)), cost, {}))
-    if allv != (1.0 if kind == 'r2' else 0.0):
-        ctx.fail('predicate', 'all-breakpoints-value', site, case, dict(value=allv))
+    # all points are breakpoints: with a fresh cache AND with the cache the queries above have filled
+    for label, cache_ in (('fresh', {}), ('shared', shared)):
+        allv = float(ev.compute_global_cost(pts, list(range(n)), cost, cache_))
+        if allv != (1.0 if kind == 'r2' else 0.0):
+            ctx.fail('predicate', f'all-breakpoints-value({label} cache)', site, case, dict(value=allv))
     nontriv = (pts.tobytes(), kind, str(queries)) if hits >= 1 and max(len(q) for q in queries) >= 4 else None
     if hits:
         ctx.tag('cache-hit', hits)
@@ -171,6 +172,13 @@ def run(ctx):
             pts[rng.randrange(0, n), 1] += rng.choice([0.25, -0.25, 1.0])
             fam = 'flat+1'
         kind = rng.choice(KINDS)
+        if rng.random() < 0.12:
+            pts, fam = gen.float_curve(rng, n)                     # general float64 values (not few-bit dyadic ones)
+        elif rng.random() < 0.08:
+            # zig-zag about a flat trend: the end-point line fits WORSE than the mean, rss > tss, R2 must be clipped at 0
+            pts = pts.copy()
+            pts[:, 1] = np.array([(4.0 if i % 2 else 1.0) + rng.choice([0.0, 0.25]) for i in range(n)])
+            fam, kind = 'zigzag', 'r2'
         u2 = rng.random()
         if u2 < 0.12:
             # a large base line with a small swing (byte counters, timestamps): R2 = 1 - rss/tss needs the CENTRED total sum of squares
